@@ -56,7 +56,7 @@ def setup(tier):
 
 def required(tier):
     return {
-        "mon": ["backend:svd", "backend:randomized_svd", "history:prior_fit"],
+        "mon": ["backend:svd", "backend:randomized_svd", "history:prior_fit", "deferred_fits_computed"],
         "cover": [f"kind:{k}" for k in KINDS]
         + ["use_pca:True", "use_pca:False", "npca:int", "npca:all", "npca:float", "eig:complex_pair", "eig:neg_real", "eig:pos_real"]
         + ["backend:svd", "backend:randomized_svd", "center:False", "standardize:True", "coslat:True", "weights:True", "osc_pairs:1", "osc_pairs:2", "osc_pairs:3", "history:refit", "history:fresh", "time_labels:decreasing", "time_labels:unordered", "cond2:gt1e10"],
@@ -298,6 +298,12 @@ def run_case(case, obs):
         else:
             kw["n_pca_modes"] = case["frac"]
             kw["pca_init_rank_reduction"] = case["irr"]
+    # every fifth case: fit(compute=False) on the in-memory data, then compute() -- same answers as the ordinary fit
+    deferred = case["dseed"] % 5 == 1
+    if deferred:
+        kw["compute"] = False
+    obs.cell("deferred:" + str(deferred))
+    obs.tag(deferred=deferred)
     model = xe.single.POP(**kw)
     refit = case["dseed"] % 3 == 0
     obs.tag(history="refit" if refit else "fresh")
@@ -318,6 +324,9 @@ def run_case(case, obs):
                 obs.count("history:prior_fit_raised")
         mon.reset()
         model.fit(b["X"], dim="time", weights=b["W"])
+        if deferred:
+            model.compute()
+            obs.count("deferred_fits_computed")
     events = mon.drain(obs)
     backends = [e["backend"] for e in events if e.get("kind") == "backend" and e.get("where") == "_SVD"]
     backend = backends[-1] if backends else None
